@@ -102,6 +102,9 @@ def _gen_adapter_new(rng, uid, allow_prefix=True, allow_auth=False):
     nd = rng.random() < 0.3
     if r < 0.5:
         a = {"a": "hdr", "name": f"X-Ad-{uid}", "value": f"v{uid}"}
+        if rng.random() < 0.15:
+            a["falsy"] = True       # the adapter object is an (empty) container as well: bool(adapter) is False
+            return a
     elif r < 0.56:
         return {"a": "drop", "tag": f"d{uid}"}
     elif r < 0.64:
